@@ -81,35 +81,61 @@ def game_ending_table(ctx):
 
 
 def r2_threshold(ctx):
+    """the move-count draw fires exactly when the half-move clock is >= 100: decided by evaluating the clock conditions of every
+    return path of game_ending for all 256 clock values (repetition count held at 1), whatever the comparison is spelled like"""
     rule = 'C16.R2-draw-threshold'
     name, outs = game_ending_table(ctx)
-    found = set()
+    from sa.evalterm import ev, Unevaluable
+    clock_terms, count_terms = set(), set()
     for o in outs:
-        if o.kind != 'return' or o.value[0] != 'agg' or o.value[3] != 'Some':
-            continue
-        inner = dict(o.value[4])['0']
-        if inner[0] != 'agg' or inner[3] != 'Draw':
-            continue
         for a, v in o.conds:
-            calls = [s for s in subterms(a) if s[0] == 'call' and s[1] == BOARD + '::halfmove_clock']
-            if not calls:
-                continue
-            if a[0] == 'bin' and is_const(a[3]) and v in (1,):
-                op, k = a[1], a[3][1]
-                thr = {'Ge': k, 'Gt': k + 1, 'Eq': k}.get(op)
-                found.add((op, k, thr))
-            elif a[0] == 'call' and isinstance(v, int):
-                found.add(('Eq', v, v))
-            else:
-                found.add(('?', show(a), None))
-    if not found:
+            for s_ in subterms(a):
+                if s_[0] == 'call' and s_[1] == BOARD + '::halfmove_clock':
+                    clock_terms.add(s_)
+                if s_[0] == 'call' and s_[1] == BOARD + '::max_seen_position_count':
+                    count_terms.add(s_)
+    if not clock_terms:
         ctx.ob(rule, name, 'a move-count draw clause exists', False, found='none', expected='halfmove_clock >= 100 => Draw',
                why='fifty moves by each side without capture or pawn move is a draw')
         return
-    for op, k, thr in sorted(found, key=str):
-        ctx.ob(rule, name, 'draw when halfmove_clock %s %s' % (op, k) if thr != 100 else 'draw threshold = 100 half-moves', thr == 100,
-               found='clock %s %s' % (op, k), expected='clock >= 100',
-               why='the game is drawn on move count exactly when the half-move clock has reached 100 (fifty moves by each side), never earlier')
+
+    def verdict(o):
+        v = o.value
+        if o.kind != 'return' or v is None or v[0] != 'agg':
+            return None
+        if v[3] == 'None':
+            return 'None'
+        inner = dict(v[4]).get('0')
+        return inner[3] if inner is not None and inner[0] == 'agg' else None
+
+    def holds(o, c):
+        env = {t: c for t in clock_terms}
+        env.update({t: 1 for t in count_terms})
+        for a, v in o.conds:
+            if not any(s_ in clock_terms or s_ in count_terms for s_ in subterms(a)):
+                continue
+            try:
+                x = ev(a, env)
+            except Unevaluable:
+                return None
+            if isinstance(v, tuple) and v[0] == 'not':
+                if x in v[1]:
+                    return False
+            elif x != int(v):
+                return False
+        return True
+    bad = []
+    for c in range(256):
+        live = [verdict(o) for o in outs if verdict(o) in ('Draw', 'None') and holds(o, c)]
+        if any(holds(o, c) is None for o in outs if verdict(o) in ('Draw', 'None')):
+            bad.append((c, 'not evaluable'))
+            break
+        want = 'Draw' if c >= 100 else 'None'
+        if set(live) != {want}:
+            bad.append((c, sorted(set(live))))
+    ctx.ob(rule, name, 'draw threshold = 100 half-moves', not bad, found={'first clock values with a wrong verdict (repetition count 1, a legal move exists)': bad[:4]},
+           expected='Draw exactly when halfmove_clock >= 100',
+           why='the game is drawn on move count exactly when the half-move clock has reached 100 (fifty moves by each side), never earlier and not only at 100')
 
 
 def r3_plus_minus(ctx):
